@@ -11,7 +11,7 @@ from .common import pmap, result, part
 from .C01 import _cls
 XS = 'xmlns:xs="http://www.w3.org/2001/XMLSchema"'; XSI = 'xmlns:xsi="http://www.w3.org/2001/XMLSchema-instance"'
 TYPES = {'B': (None, None, ['a']), 'E1': ('B', 'extension', ['a', 'b']), 'E2': ('E1', 'extension', ['a', 'b', 'c']), 'R1': ('B', 'restriction', ['a'])}
-BLK = [None, 'extension', 'restriction', '#all']
+BLK = [None, '', 'extension', 'restriction', '#all']       # '' = an explicit empty attribute, which overrides blockDefault
 
 
 def types_xml(tflags):
@@ -72,10 +72,10 @@ def eval_config(args):
     tflags = {}
     for n, a in zip(TYPES, ab):
         if a: tflags.setdefault(n, {})['abstract'] = 'true'
-    if bB: tflags.setdefault('B', {})['block'] = bB
+    if bB is not None: tflags.setdefault('B', {})['block'] = bB
     eflags = {}
     if nill: eflags['nillable'] = 'true'
-    if eb: eflags['block'] = eb
+    if eb is not None: eflags['block'] = eb
     eattrs = ''.join(f' {k}="{v}"' for k, v in eflags.items())
     try: s = _cls(ver)(f'<xs:schema {XS}' + (f' blockDefault="{bd}"' if bd else '') + f'>{types_xml(tflags)}<xs:element name="e" type="B"{eattrs}/></xs:schema>')
     except xmlschema.XMLSchemaException: return dict(cases=0, bad=[])
